@@ -132,9 +132,41 @@ func c03Spec(maxCost int64, internal bool, costFn bool, keys []int, depth int) *
 	return spec
 }
 
+// c03LeanSpec: a five-operation alphabet (new keys of cost 1, one key of cost 2 = the whole
+// capacity, overwrites of residents at unchanged cost, drain) so that the search reaches depth 7-9:
+// admissions that need several victims (duplicates in the eviction sample), and overwrites of a
+// resident key buffered behind the new item that evicts it.
+func c03LeanSpec(depth int, maxCost int64) *SeqSpec {
+	alpha := []Op{{K: "set", Key: 1, Cost: 1}, {K: "set", Key: 2, Cost: 1}, {K: "set", Key: 3, Cost: 1}, {K: "set", Key: 3, Cost: 2}, {K: "drain"}}
+	if maxCost == 3 {
+		// three unit-cost residents and a newcomer as large as the cache: three evictions, so the
+		// refilled sample holds duplicates and already-evicted keys
+		alpha = []Op{{K: "set", Key: 1, Cost: 1}, {K: "set", Key: 2, Cost: 1}, {K: "set", Key: 3, Cost: 1}, {K: "set", Key: 4, Cost: 3}, {K: "drain"}}
+	}
+	spec := &SeqSpec{
+		Cfg:      Cfg{NumCounters: 16, MaxCost: maxCost, BufferItems: 1, SetBuf: 4, MapOrder: "perm"},
+		MaxDepth: depth,
+		Oracle:   c03Oracle,
+		Alphabet: func(r *SeqRun) []Op { return alpha },
+		Abstract: func(r *SeqRun, ren func(int64) int64) string { return fmt.Sprint(c03Taint(r.Events)) },
+		Probe: func(c seqCache, r *SeqRun) {
+			r.Probe["remaining"] = c.Remaining()
+			r.Probe["maxcost"] = c.MaxCost()
+		},
+	}
+	return spec
+}
+
 func c03Seq(tier string) []SeqJob {
 	var out []SeqJob
 	add := func(name string, s *SeqSpec, secs float64) { out = append(out, SeqJob{Name: name, Spec: s, Seconds: secs}) }
+	if tier == "quick" {
+		add("seq/lean/max2/3keys/depth7", c03LeanSpec(7, 2), 40)
+		add("seq/lean/max3/4keys/depth7", c03LeanSpec(7, 3), 40)
+	} else {
+		add("seq/lean/max2/3keys/depth10", c03LeanSpec(10, 2), 560)
+		add("seq/lean/max3/4keys/depth10", c03LeanSpec(10, 3), 560)
+	}
 	if tier == "quick" {
 		add("seq/max3/2keys/depth4", c03Spec(3, false, false, []int{1, 2}, 4), 40)
 		add("seq/max3/3keys/depth4", c03Spec(3, false, false, []int{1, 2, 3}, 4), 40)
